@@ -32,4 +32,105 @@ def isInClip (b : Bounds) (clipStart clipEnd minOverlap : Rat) : Option Bool :=
   else if b.en ≤ clipStart + minOverlap ∨ b.st ≥ clipEnd - minOverlap then some false
   else some true
 
+/-! ### the geometry-level functions (review R-C12)
+
+  `have_temporal_overlap`, `have_frequency_overlap` and `is_in_clip` take *geometries*; the
+  composition "compute_bounds of each argument, then the interval predicate" is part of the
+  code and is modelled here (it used to live in the JSON glue).  Outer `none`: a geometry
+  without vertices (outside the data model, no validated geometry); inner `none`: `ValueError`. -/
+
+/-- the time / frequency coordinates `compute_bounds` ranges over -/
+def times (g : Geom) : List Rat := g.boundPts.map (·.1)
+def freqs (g : Geom) : List Rat := g.boundPts.map (·.2)
+
+def haveTemporalOverlap (g1 g2 : Geom) (abs rel : Option Rat) : Option (Option Bool) :=
+  match g1.bounds, g2.bounds with
+  | some b1, some b2 => some (temporalOverlap b1 b2 abs rel)
+  | _, _ => none
+
+def haveFrequencyOverlap (g1 g2 : Geom) (abs rel : Option Rat) : Option (Option Bool) :=
+  match g1.bounds, g2.bounds with
+  | some b1, some b2 => some (frequencyOverlap b1 b2 abs rel)
+  | _, _ => none
+
+/-- `is_in_clip(geometry, clip, minimum_overlap)`: the sign test comes first, then `compute_bounds` -/
+def isInClipGeom (g : Geom) (clipStart clipEnd minOverlap : Rat) : Option (Option Bool) :=
+  if minOverlap < 0 then some none
+  else match g.bounds with
+    | some b => some (isInClip b clipStart clipEnd minOverlap)
+    | none => none
+
+/-- the measure of `[s1, e1] ∩ [s2, e2]` (0 when they are disjoint) -/
+def interLen (s1 e1 s2 e2 : Rat) : Rat := max 0 (min e1 e2 - max s1 s2)
+
+/-! ### the same computations in a rounding arithmetic (binary64)
+
+  Every `+ - *` of the Python code returns `rnd` of the exact result; `min`, `max`, comparisons,
+  the literal `0` and the arguments themselves are exact.  `rnd = id` gives the definitions above
+  (`C12_float_id`); `rnd = SE.Affinity.rnd64` is binary64 round-to-nearest-even and is compared
+  bit for bit with the code on arbitrary (non-dyadic) floats. -/
+
+def thresholdR (rnd : Rat → Rat) (s1 e1 s2 e2 : Rat) (abs rel : Option Rat) : Option Rat :=
+  match abs, rel with
+  | some _, some _ => none
+  | some a, none => some a
+  | none, some r =>
+    if r < 0 ∨ r > 1 then none else some (rnd (r * min (rnd (e1 - s1)) (rnd (e2 - s2))))
+  | none, none => some 0
+
+def intervalsOverlapR (rnd : Rat → Rat) (s1 e1 s2 e2 : Rat) (abs rel : Option Rat) : Option Bool :=
+  (thresholdR rnd s1 e1 s2 e2 abs rel).map (fun thr => decide (rnd (min e1 e2 - max s1 s2) ≥ thr))
+
+def isInClipR (rnd : Rat → Rat) (b : Bounds) (clipStart clipEnd minOverlap : Rat) : Option Bool :=
+  if minOverlap < 0 then none
+  else if b.en ≤ rnd (clipStart + minOverlap) ∨ b.st ≥ rnd (clipEnd - minOverlap) then some false
+  else some true
+
+/-- what the property demands of a result computed in floating point: outside a band of
+    `u · (|x| + 3 · max |w₁| |w₂|)` around equality (`x` the signed intersection length, `wᵢ` the
+    widths, `u` the unit round-off) the answer is the exact one; `out = none`: the call raised. -/
+def absR (x : Rat) : Rat := if x < 0 then -x else x
+
+def floatBand (u : Rat) (s1 e1 s2 e2 : Rat) : Rat :=
+  u * (absR (min e1 e2 - max s1 s2) + 3 * max (absR (e1 - s1)) (absR (e2 - s2)))
+
+def floatOk (u : Rat) (s1 e1 s2 e2 : Rat) (abs rel : Option Rat) (out : Option Bool) : Bool :=
+  match threshold s1 e1 s2 e2 abs rel, out with
+  | none, none => true
+  | some thr, some v =>
+    if min e1 e2 - max s1 s2 - thr > floatBand u s1 e1 s2 e2 then v == true
+    else if min e1 e2 - max s1 s2 - thr < -floatBand u s1 e1 s2 e2 then v == false
+    else true
+  | _, _ => false
+
+/-- the same for `is_in_clip`: the two edges `start + m`, `end − m` are each rounded once -/
+def clipFloatOk (u : Rat) (b : Bounds) (cs ce m : Rat) (out : Option Bool) : Bool :=
+  match isInClip b cs ce m, out with
+  | none, none => true
+  | some _, some v =>
+    if b.en > cs + m + u * absR (cs + m) ∧ b.st < ce - m - u * absR (ce - m) then v == true
+    else if b.en ≤ cs + m - u * absR (cs + m) ∨ b.st ≥ ce - m + u * absR (ce - m) then v == false
+    else true
+  | _, _ => false
+
+/-- the geometry-level functions in the rounding arithmetic (`compute_bounds` is min / max only: exact) -/
+def haveTemporalOverlapR (rnd : Rat → Rat) (g1 g2 : Geom) (abs rel : Option Rat) : Option (Option Bool) :=
+  match g1.bounds, g2.bounds with
+  | some b1, some b2 => some (intervalsOverlapR rnd b1.st b1.en b2.st b2.en abs rel)
+  | _, _ => none
+
+def haveFrequencyOverlapR (rnd : Rat → Rat) (g1 g2 : Geom) (abs rel : Option Rat) : Option (Option Bool) :=
+  match g1.bounds, g2.bounds with
+  | some b1, some b2 => some (intervalsOverlapR rnd b1.lo b1.hi b2.lo b2.hi abs rel)
+  | _, _ => none
+
+def isInClipGeomR (rnd : Rat → Rat) (g : Geom) (clipStart clipEnd minOverlap : Rat) : Option (Option Bool) :=
+  if minOverlap < 0 then some none
+  else match g.bounds with
+    | some b => some (isInClipR rnd b clipStart clipEnd minOverlap)
+    | none => none
+
+/-- the default of `is_in_clip`'s `minimum_overlap` argument -/
+def defaultMinimumOverlap : Rat := 0
+
 end SE.Intervals
